@@ -1,4 +1,149 @@
-(** C02 — property theorems (statements + [exact] + [Print Assumptions] only). *)
+(** C02 — property theorems (statements + [exact] + [Print Assumptions] only). Codec round trips and crash atomicity of the write-ahead log for every cut point. *)
+From Coq Require Import List NArith.
 From RainVerif Require Import Params.
-From RainVerif.model Require Import Bytes Key Log LogScript.
+From RainVerif.model Require Import Bytes Key Block Crc Log LogScript Version Lsm DbSpec Codec WalModel.
+From RainVerif.proofs Require Import KeyProofs LogProofs CodecProofs WalProofs.
+Import ListNotations.
 Open Scope N_scope.
+
+(** * Codec round trips *)
+
+Theorem C02a_varint_read_enc32 : forall n rest,
+  n < 4294967296 -> varint_read 5 0 0 (varint_enc 10 n ++ rest) = Some (n, rest).
+Proof. exact varint_read_enc32. Qed.
+Print Assumptions C02a_varint_read_enc32.
+
+Theorem C02a_varint_read_enc64 : forall n rest,
+  n < 18446744073709551616 -> varint_read 10 0 0 (varint_enc 10 n ++ rest) = Some (n, rest).
+Proof. exact varint_read_enc64. Qed.
+Print Assumptions C02a_varint_read_enc64.
+
+Theorem C02a_read_varint32_enc : forall n rest,
+  n < 4294967296 -> read_varint32 (varint32 n ++ rest) = Some (n, rest).
+Proof. exact read_varint32_enc. Qed.
+Print Assumptions C02a_read_varint32_enc.
+
+Theorem C02a_read_varint64_enc : forall n rest,
+  n < 18446744073709551616 -> read_varint64 (varint64 n ++ rest) = Some (n, rest).
+Proof. exact read_varint64_enc. Qed.
+Print Assumptions C02a_read_varint64_enc.
+
+Theorem C02a_read_slice_write : forall s rest,
+  blen s < 4294967296 -> read_slice (write_slice s ++ rest) = Some (s, rest).
+Proof. exact read_slice_write. Qed.
+Print Assumptions C02a_read_slice_write.
+
+Theorem C02a_batch_decode_encode : forall b : batch,
+  batch_ok b = true -> batch_decode (batch_bytes b) = Some b.
+Proof. exact batch_decode_encode. Qed.
+Print Assumptions C02a_batch_decode_encode.
+
+Theorem C02a_batch_decode_encode_app : forall (b : batch) rest,
+  batch_ok b = true -> batch_decode (batch_bytes b ++ rest) = Some b.
+Proof. exact batch_decode_encode_app. Qed.
+Print Assumptions C02a_batch_decode_encode_app.
+
+Theorem C02a_fmeta_decode_encode : forall f rest,
+  fmeta_ok f = true -> fmeta_decode (fmeta_encode f ++ rest) = Some (f, rest).
+Proof. exact fmeta_decode_encode. Qed.
+Print Assumptions C02a_fmeta_decode_encode.
+
+(** [vchange_ok]: option fields, file numbers and sizes below 2^64, levels below
+    [MAX_NUM_LEVELS], keys bounded with encodings shorter than 2^32, no duplicate among the
+    deleted files *)
+Theorem C02a_vchange_decode_encode : forall c,
+  vchange_ok c = true -> vchange_decode (vchange_encode c) = Some c.
+Proof. exact vchange_decode_encode. Qed.
+Print Assumptions C02a_vchange_decode_encode.
+
+Theorem C02a_nodupb_NoDup : forall l, nodupb l = true <-> NoDup l.
+Proof. exact nodupb_NoDup. Qed.
+Print Assumptions C02a_nodupb_NoDup.
+
+(** * Crash atomicity of one log file *)
+
+Theorem C02a_wal_crash_atomic :
+  forall (sessions : list (list batch)) (n : N),
+    Forall (Forall (fun b => batch_ok b = true)) sessions ->
+    let st := log_script_run (map (fun s => LSess s None) (map (map batch_bytes) sessions)) in
+    fst st = wal_bytes_sessions sessions /\
+    map fst (snd st) = map batch_bytes (concat sessions) /\
+    exists k,
+      wal_recover (takeN n (wal_bytes_sessions sessions)) = Some (firstn k (concat sessions)) /\
+      forall j r e, nth_error (snd st) j = Some (r, e) -> (e <= n <-> (j < k)%nat).
+Proof. exact wal_crash_atomic. Qed.
+Print Assumptions C02a_wal_crash_atomic.
+
+Theorem C02a_wal_crash_replay : forall sessions n m,
+  Forall batches_ok sessions ->
+  exists k recovered,
+    wal_recover (takeN n (wal_bytes_sessions sessions)) = Some recovered /\
+    recovered = firstn k (concat sessions) /\
+    replay m recovered = replay m (firstn k (concat sessions)).
+Proof. exact wal_crash_replay. Qed.
+Print Assumptions C02a_wal_crash_replay.
+
+Theorem C02a_wal_crash_complete : forall sessions n m,
+  Forall batches_ok sessions ->
+  blen (wal_bytes_sessions sessions) <= n ->
+  wal_recover (takeN n (wal_bytes_sessions sessions))
+    = Some (firstn (length (concat sessions)) (concat sessions)) /\
+  wal_recover (takeN n (wal_bytes_sessions sessions)) = Some (concat sessions) /\
+  replay m (concat sessions) = replay m (firstn (length (concat sessions)) (concat sessions)).
+Proof. exact wal_crash_complete. Qed.
+Print Assumptions C02a_wal_crash_complete.
+
+Theorem C02a_wal_recover_all : forall sessions,
+  Forall batches_ok sessions ->
+  wal_recover (wal_bytes_sessions sessions) = Some (concat sessions).
+Proof. exact wal_recover_all. Qed.
+Print Assumptions C02a_wal_recover_all.
+
+Theorem C02a_chained_last_seq : forall bs start,
+  batches_chained start bs = true ->
+  N.max start (recovered_last_seq bs) = start + total_ops bs.
+Proof. exact chained_last_seq. Qed.
+Print Assumptions C02a_chained_last_seq.
+
+Theorem C02a_wal_crash_last_seq : forall sessions n start,
+  Forall batches_ok sessions ->
+  batches_chained start (concat sessions) = true ->
+  exists k recovered,
+    wal_recover (takeN n (wal_bytes_sessions sessions)) = Some recovered /\
+    recovered = firstn k (concat sessions) /\
+    batches_chained start recovered = true /\
+    N.max start (recovered_last_seq recovered) = start + total_ops (firstn k (concat sessions)).
+Proof. exact wal_crash_last_seq. Qed.
+Print Assumptions C02a_wal_crash_last_seq.
+
+(** * C16: torn tail, then continued use *)
+(** * Non-vacuity (block size 32) *)
+
+Example C02a_example_cut_everywhere :
+  length ex_file = 124%nat /\ ex_ends = [24; 105; 124] /\
+  forallb (fun n =>
+             opt_batches_eqb
+               (wal_recover32 (takeN (N.of_nat n) ex_file))
+               (firstn (length (filter (fun e => e <=? N.of_nat n) ex_ends)) ex_batches))
+          (seq 0 (S (length ex_file))) = true.
+Proof. exact ex_cut_everywhere. Qed.
+Print Assumptions C02a_example_cut_everywhere.
+
+Example C02a_example_vchange_roundtrip :
+  let k1 := mkIKey [1; 2] 7 OP_PUT in
+  let k2 := mkIKey [9] 3 OP_DELETE in
+  let c := mkVC (Some 5) None (Some 12) (Some 99) [(1, k1)] [(0, 4); (1, 4); (0, 6)]
+                [(2, mkFM 13 4096 k1 k2)] in
+  vchange_ok c = true /\ vchange_decode (vchange_encode c) = Some c.
+Proof. vm_compute. split; reflexivity. Qed.
+Print Assumptions C02a_example_vchange_roundtrip.
+
+Example C02a_example_vchange_duplicate_collapses :
+  let c := mkVC None None None None [] [(1, 5); (1, 5)] [] in
+  vchange_ok c = false /\
+  vchange_decode (vchange_encode c) = Some (mkVC None None None None [] [(1, 5)] []).
+Proof. vm_compute. split; reflexivity. Qed.
+Print Assumptions C02a_example_vchange_duplicate_collapses.
+
+(** the hypotheses of the corruption theorem are satisfiable at the real block size: two records,
+    byte 8 (payload of the first fragment) overwritten *)
